@@ -936,10 +936,13 @@ class OptionalMethod(DeserializationMethod):
         try:
             return self.value_method.deserialize(data)
         except ValidationError as err:
-            if self.coercer is not None and self.coercer(NoneType, data) is None:
-                return None
-            else:
-                raise merge_errors(err, bad_type(data, NoneType))
+            if self.coercer is not None:
+                try:
+                    if self.coercer(NoneType, data) is None:
+                        return None
+                except ValidationError:
+                    pass  # data cannot be coerced to None: errors of the value stand
+            raise merge_errors(err, bad_type(data, NoneType))
 
 
 @dataclass
